@@ -790,3 +790,13 @@ func (w *World) FuncDecl(f *ssa.Function) (*packages.Package, *ast.FuncDecl) {
 	p, _ := w.FileOf(fd.Pos())
 	return p, fd
 }
+
+// TypesPkg: the type-checked package with the given import path (nil if not loaded).
+func (w *World) TypesPkg(path string) *types.Package {
+	for _, p := range w.Prog.AllPackages() {
+		if p.Pkg != nil && p.Pkg.Path() == path {
+			return p.Pkg
+		}
+	}
+	return nil
+}
